@@ -90,7 +90,18 @@ def clauses_broken(seg, idx):
                 V.add(e["pod"])
     e = seg[idx]
     if e["op"] == "ret":
-        return ["Rl"]
+        out = []
+        rel = e.get("released") or {}
+        for t in cs["tasks"]:
+            for r, n in (t.get("need") or {}).items():
+                if n > 0 and _val(rel.get(t["tt"]) or {}, r) != _released(cs, t["tt"], r, V) and "Rl" not in out:
+                    out.append("Rl")
+            if _short(cs, t, V) and "Pr" not in out:
+                for x in t["list"]:
+                    if not (x in Tr or x in V or cs["pods"][x]["already"] or not _useful(cs, t, x, V)):
+                        out.append("Pr")
+                        break
+        return out or ["none?"]
     if e["op"] != "evict":
         return [e["op"]]
     ti, p = e.get("task", 0), e["pod"]
@@ -118,6 +129,8 @@ def sig(fl):
     exp = fl.get("expected")
     if isinstance(exp, dict) and e.get("op") == "evict" and exp.get("known"):
         broken = [k for k in ("El", "Tw", "St", "Us", "Or") if exp.get(k) is False]
+    elif isinstance(exp, dict) and e.get("op") == "ret" and "Rl" in exp:
+        broken = [k for k in ("Rl", "Pr") if exp.get(k) is False]
     else:
         try:
             broken = clauses_broken(fl["segment"], fl["fail_index"])
